@@ -78,6 +78,8 @@ def trace (I : Impl σ Int) (intern : σ → String) (ops : List (Op Int)) : Str
   let fin := s!"leak={(L.allocs : Int) - L.freed.length} live={(L.ctors : Int) - L.dtors} bad={badFree}"
   -- an access outside a buffer is undefined behaviour: whatever the real run shows, the model predicts nothing
   if L.events.contains .oob then "ub:oob" else
+  -- … nor about a read through a dangling reference (small_vector: `x.push_back(x[i])` at size() == DIM)
+  if L.events.contains .uaf then "ub:uaf" else
   s!"ok {"|".intercalate ss} # {"|".intercalate is} # {fin}"
 
 def vecIntern (v : Vec Int) : String := s!"{v.cap}:{fmtCells (v.cells.drop v.size)}"
@@ -153,8 +155,10 @@ def handle : Handler := fun op a =>
       | "vec" => pure (trace (vecImpl (0 : Int)) vecIntern ops)
       | "svec" => pure (trace (svecImpl 4 (0 : Int)) (svecIntern 4) ops)
       | "arr" => pure (trace (arrImpl 3 (0 : Int)) (arrIntern 3) ops)
-      | "tuple" => pure (trace (arrImpl 3 (0 : Int)) (arrIntern 3) ops)
-      | "tuplev2" => pure (trace (arrImpl 3 (0 : Int)) (arrIntern 3) ops)
+      | "tuple" | "tuplev2" =>
+        -- heterogeneous tuples carry their arity (`arity=1…12`); the homogeneous `tuple<E,E,E>` requests have none
+        let n := ((a.get? "arity").bind String.toNat?).getD 3
+        pure (trace (arrImpl n (0 : Int)) (arrIntern n) ops)
       | "small" => pure (trace (smallImpl 4 (0 : Int)) (smallIntern 4) ops)
       | _ => none
   | "ehist" => orBad do
